@@ -154,15 +154,17 @@ structure Entry where
   boundsCommon : Bounds := {}
 deriving Inhabited
 
-def Entry.ofArgs (a : Args) : R (List Entry) :=
-  a.items.mapM fun item =>
-    match Kind.fromStr item.trait_ with
-    | none => bail
-    | some k =>
-      let (dump, bt) := match item.args with
-        | some (b, d) => (d, Bounds.ofArg b)
-        | none => (false, Bounds.new)
-      pure { kind := k, dump := a.dump || dump, boundsThis := bt, boundsCommon := Bounds.ofArg a.bound }
+/-- one `Trait(..)` item of a `derive_ex(..)` list with the list's shared arguments -/
+def Entry.ofItem (bound : Option (List BoundArg)) (dump : Bool) (item : DeriveItem) : R Entry :=
+  match Kind.fromStr item.trait_ with
+  | none => bail
+  | some k =>
+    let (d, bt) := match item.args with
+      | some (b, d) => (d, Bounds.ofArg b)
+      | none => (false, Bounds.new)
+    pure { kind := k, dump := dump || d, boundsThis := bt, boundsCommon := Bounds.ofArg bound }
+
+def Entry.ofArgs (a : Args) : R (List Entry) := a.items.mapM (Entry.ofItem a.bound a.dump)
 
 def Entry.ofArgsList (as : List Args) : R (List Entry) := do
   let ess ← as.mapM Entry.ofArgs
@@ -208,10 +210,10 @@ def Kinds.extend (k : Kinds) (es : List Entry) : Kinds := es.foldl (fun k e => k
 
 /-- `is_match_cmp_attr` -/
 def Kinds.matchCmp (k : Kinds) : CmpAttr → Bool
-  | .ord => k.ord || k.partialEq || (k.eq || k.partialEq)
+  | .ord => k.ord || k.partialOrd || k.eq || k.partialEq || k.hash
   | .partialOrd => k.partialOrd || k.partialEq
-  | .eq => k.eq || k.partialEq
-  | .partialEq => k.partialEq
+  | .eq => k.eq || k.partialEq || k.hash
+  | .partialEq => k.eq || k.partialEq
   | .hash => k.hash
 
 /-- `is_match`: is this attribute one the expander owns under `k`? -/
@@ -296,13 +298,15 @@ def CmpH.fromAttrs (attrs : List Attr) (w : CmpAttr) : R CmpH := do
   | some a => pure { ignore := a.ignore, reverse := a.reverse, by_ := a.by_, key := a.key, bounds := Bounds.ofArg a.bound }
   | none => pure {}
 
+def cmpPart (attrs : List Attr) (k : Kinds) (w : CmpAttr) : R CmpH :=
+  if k.matchCmp w then CmpH.fromAttrs attrs w else pure {}
+
 def CmpHs.fromAttrs (attrs : List Attr) (k : Kinds) : R CmpHs := do
-  let one (w : CmpAttr) : R CmpH := if k.matchCmp w then CmpH.fromAttrs attrs w else pure {}
-  let ord ← one .ord
-  let partialOrd ← one .partialOrd
-  let eq ← one .eq
-  let partialEq ← one .partialEq
-  let hash ← one .hash
+  let ord ← cmpPart attrs k .ord
+  let partialOrd ← cmpPart attrs k .partialOrd
+  let eq ← cmpPart attrs k .eq
+  let partialEq ← cmpPart attrs k .partialEq
+  let hash ← cmpPart attrs k .hash
   pure { ord, partialOrd, eq, partialEq, hash }
 
 def DebugH.fromAttrs (attrs : List Attr) : R DebugH := do
@@ -335,11 +339,18 @@ def CmpHs.verify (c : CmpHs) (t : Target) : R Unit := do
   c.partialEq.verify t
   c.hash.verify t
 
+def itemsPart (attrs : List Attr) (k : Kinds) : R (List Entry) :=
+  if k.deriveEx then Entry.ofArgsList (deriveExArgs attrs) else pure []
+def dfltPart (attrs : List Attr) (k : Kinds) : R (Option DefaultH) :=
+  if k.dflt then DefaultH.fromAttrs attrs else pure none
+def debugPart (attrs : List Attr) (k : Kinds) : R DebugH :=
+  if k.debug then DebugH.fromAttrs attrs else pure {}
+
 /-- `HelperAttributes::from_attrs` -/
 def HAttrs.fromAttrs (attrs : List Attr) (target : Target) (k : Kinds) : R HAttrs := do
-  let items ← if k.deriveEx then Entry.ofArgsList (deriveExArgs attrs) else pure []
-  let dflt ← if k.dflt then DefaultH.fromAttrs attrs else pure none
-  let debug ← if k.debug then DebugH.fromAttrs attrs else pure {}
+  let items ← itemsPart attrs k
+  let dflt ← dfltPart attrs k
+  let debug ← debugPart attrs k
   let cmp ← CmpHs.fromAttrs attrs k
   cmp.verify target
   pure { items, dflt, debug, cmp }
